@@ -336,7 +336,7 @@ Section Msg.
     Proof.
       intros Hf Hc Hkk (Hk & Hv & Hdef & Hlen) Hcur Hold Hdist.
       apply step_known; [exact Hf|]. unfold merge_field. rewrite Hc, Hcur, <- Hold.
-      cbn [expect_len pbind].
+      cbn [expect_len_map pbind].
       pose proof (entry_roundtrip kk kpres (f_kind f) vpres kv Hkk Hk Hv Hdef Hlen) as He.
       destruct (parse_records (enc_entry P em kk kpres (f_kind f) vpres kv)) as [rs| |]; cbn [pbind] in He |- *;
         try discriminate.
